@@ -1,17 +1,213 @@
-//! C05 area `c05e` (engine level, oracle only) — see bin/c05.rs header.  (stub, filled in below)
+//! C05 area `c05e` (engine level, oracle only) — see bin/c05.rs header.
+//! Every line is one or a few real transactions on a `LedgerSimulator`; after every line the repo's
+//! `KernelDatabaseChecker` and `SystemDatabaseChecker<RoleAssignmentDatabaseChecker>` (and, every
+//! few lines, `SystemDatabaseChecker<ResourceDatabaseChecker>`) scan the whole substate database.
 use harness::util::*;
+use radix_common::prelude::*;
+use radix_engine::system::checkers::*;
+use radix_engine_interface::prelude::*;
+use radix_transactions::prelude::*;
+use scrypto_test::prelude::*;
 use std::io::Write;
 
 pub struct E;
+
 impl Area for E {
-    fn gen(&self, _rng: &mut Rng, _n: usize, _out: &mut dyn Write) {}
+    fn gen(&self, rng: &mut Rng, n: usize, out: &mut dyn Write) {
+        for _ in 0..n {
+            writeln!(out, "reset").unwrap();
+            let mut accts = 0u64;
+            let mut res = 0u64;
+            let len = 6 + rng.below(8);
+            for _ in 0..len {
+                if accts == 0 || rng.chance(1, 6) {
+                    writeln!(out, "acct").unwrap();
+                    accts += 1;
+                    continue;
+                }
+                match rng.below(12) {
+                    0..=1 => {
+                        writeln!(out, "fres {} {}", rng.below(accts), *rng.pick(&[0u64, 2, 18])).unwrap();
+                        res += 1;
+                    }
+                    2 => {
+                        writeln!(out, "nfres {}", rng.below(accts)).unwrap();
+                        res += 1;
+                    }
+                    3 => {
+                        writeln!(out, "restricted {}", rng.below(accts)).unwrap();
+                        res += 3;
+                    }
+                    4..=6 if res > 0 => writeln!(out, "xfer {} {} {} {}", rng.below(accts), rng.below(accts), rng.below(res), 1 + rng.below(3)).unwrap(),
+                    7 => writeln!(out, "xrd {} {}", rng.below(accts), rng.below(accts)).unwrap(),
+                    8 => writeln!(out, "over {}", rng.below(accts)).unwrap(),
+                    9 => writeln!(out, "validator {}", rng.below(accts)).unwrap(),
+                    10 => writeln!(out, "identity").unwrap(),
+                    _ => writeln!(out, "badcall {}", rng.below(accts)).unwrap(),
+                }
+            }
+        }
+    }
     fn runner(&self) -> Box<dyn Runner> {
-        Box::new(ER)
+        Box::new(ER { ledger: None, accts: vec![], res: vec![], n: 0 })
     }
 }
-struct ER;
+
+type L = LedgerSimulator<NoExtension, InMemorySubstateDatabase>;
+
+struct ER {
+    ledger: Option<L>,
+    accts: Vec<(Secp256k1PublicKey, ComponentAddress)>,
+    res: Vec<ResourceAddress>,
+    n: u64,
+}
+
+fn outcome(r: &TransactionReceipt) -> &'static str {
+    match &r.result {
+        TransactionResult::Commit(c) => match c.outcome {
+            TransactionOutcome::Success(_) => "success",
+            TransactionOutcome::Failure(_) => "failure",
+        },
+        TransactionResult::Reject(_) => "reject",
+        TransactionResult::Abort(_) => "abort",
+    }
+}
+
+impl ER {
+    fn check(&mut self, ans: String) -> Answer {
+        self.n += 1;
+        let ledger = self.ledger.as_ref().unwrap();
+        let r = catch(|| {
+            if let Err(e) = KernelDatabaseChecker::new().check_db(ledger.substate_db()) {
+                let k = format!("{:?}", e);
+                let k: String = k.chars().take_while(|c| c.is_alphanumeric()).collect();
+                return Some((format!("kernel-db-checker:{}", k), format!("{:?}", e)));
+            }
+            match ledger.check_db::<RoleAssignmentDatabaseChecker>() {
+                Err(e) => return Some(("system-db-checker".to_string(), format!("{:?}", e).chars().take(300).collect())),
+                Ok((_, violations)) => {
+                    if !violations.is_empty() {
+                        return Some(("role-assignment-checker".to_string(), format!("{:?}", violations).chars().take(300).collect()));
+                    }
+                }
+            }
+            if self.n % 4 == 0 {
+                if let Err(e) = ledger.check_db::<ResourceDatabaseChecker>() {
+                    return Some(("system-db-checker".to_string(), format!("{:?}", e).chars().take(300).collect()));
+                }
+            }
+            None
+        });
+        match r {
+            Ok(None) => Answer::ok(ans),
+            Ok(Some((k, d))) => Answer::fail(ans, k, d),
+            Err(m) => Answer::fail(ans, "db-checker-panic", m),
+        }
+    }
+}
+
 impl Runner for ER {
-    fn step(&mut self, _line: &str) -> Answer {
-        Answer::ok("bad-op")
+    fn step(&mut self, line: &str) -> Answer {
+        let t: Vec<&str> = line.split(' ').filter(|w| !w.is_empty()).collect();
+        let p = |i: usize| -> Option<usize> { t.get(i).and_then(|s| if s.len() < 6 && s.bytes().all(|b| b.is_ascii_digit()) { s.parse().ok() } else { None }) };
+        if t.is_empty() {
+            return Answer::ok("bad-op");
+        }
+        if t[0] == "reset" && t.len() == 1 {
+            self.ledger = Some(LedgerSimulatorBuilder::new().without_kernel_trace().build());
+            self.accts.clear();
+            self.res.clear();
+            return self.check("ok".into());
+        }
+        if self.ledger.is_none() {
+            return Answer::ok("bad-op");
+        }
+        let na = self.accts.len();
+        let nr = self.res.len();
+        let ledger = self.ledger.as_mut().unwrap();
+        let ans: String = match (t[0], t.len()) {
+            ("acct", 1) => {
+                let (pk, _, a) = ledger.new_allocated_account();
+                self.accts.push((pk, a));
+                "ok".into()
+            }
+            ("identity", 1) => {
+                let (pk, _) = ledger.new_key_pair();
+                ledger.new_identity(pk, false);
+                "ok".into()
+            }
+            ("fres", 3) => match (p(1), p(2)) {
+                (Some(a), Some(d)) if a < na && d <= 18 => {
+                    let r = ledger.create_fungible_resource(dec!(100), d as u8, self.accts[a].1);
+                    self.res.push(r);
+                    "ok".into()
+                }
+                _ => return Answer::ok("bad-op"),
+            },
+            ("nfres", 2) => match p(1) {
+                Some(a) if a < na => {
+                    let r = ledger.create_non_fungible_resource(self.accts[a].1);
+                    self.res.push(r);
+                    "ok".into()
+                }
+                _ => return Answer::ok("bad-op"),
+            },
+            ("restricted", 2) => match p(1) {
+                Some(a) if a < na => {
+                    let r = ledger.create_restricted_token(self.accts[a].1);
+                    self.res.extend([r.0, r.1, r.2]);
+                    "ok".into()
+                }
+                _ => return Answer::ok("bad-op"),
+            },
+            ("validator", 2) => match p(1) {
+                Some(a) if a < na => {
+                    let (pk, _) = ledger.new_key_pair();
+                    ledger.new_validator_with_pub_key(pk, self.accts[a].1);
+                    "ok".into()
+                }
+                _ => return Answer::ok("bad-op"),
+            },
+            ("xfer", 5) => match (p(1), p(2), p(3), p(4)) {
+                (Some(a), Some(b), Some(r), Some(amt)) if a < na && b < na && r < nr => {
+                    let res = self.res[r];
+                    let m = if res.is_fungible() {
+                        ManifestBuilder::new().lock_fee_from_faucet().withdraw_from_account(self.accts[a].1, res, Decimal::from(amt as u64)).try_deposit_entire_worktop_or_abort(self.accts[b].1, None).build()
+                    } else {
+                        ManifestBuilder::new().lock_fee_from_faucet().withdraw_from_account(self.accts[a].1, res, Decimal::from(1u64)).try_deposit_entire_worktop_or_abort(self.accts[b].1, None).build()
+                    };
+                    let rc = ledger.execute_manifest(m, vec![NonFungibleGlobalId::from_public_key(&self.accts[a].0)]);
+                    outcome(&rc).into()
+                }
+                _ => return Answer::ok("bad-op"),
+            },
+            ("xrd", 3) => match (p(1), p(2)) {
+                (Some(a), Some(b)) if a < na && b < na => {
+                    let m = ManifestBuilder::new().lock_fee_from_faucet().withdraw_from_account(self.accts[a].1, XRD, dec!(5)).try_deposit_entire_worktop_or_abort(self.accts[b].1, None).build();
+                    let rc = ledger.execute_manifest(m, vec![NonFungibleGlobalId::from_public_key(&self.accts[a].0)]);
+                    outcome(&rc).into()
+                }
+                _ => return Answer::ok("bad-op"),
+            },
+            ("over", 2) => match p(1) {
+                Some(a) if a < na => {
+                    let m = ManifestBuilder::new().lock_fee_from_faucet().withdraw_from_account(self.accts[a].1, XRD, dec!(100000000)).try_deposit_entire_worktop_or_abort(self.accts[a].1, None).build();
+                    let rc = ledger.execute_manifest(m, vec![NonFungibleGlobalId::from_public_key(&self.accts[a].0)]);
+                    outcome(&rc).into()
+                }
+                _ => return Answer::ok("bad-op"),
+            },
+            ("badcall", 2) => match p(1) {
+                Some(a) if a < na => {
+                    // leaves a bucket on the worktop: the transaction fails after state was touched
+                    let m = ManifestBuilder::new().lock_fee_from_faucet().withdraw_from_account(self.accts[a].1, XRD, dec!(1)).build();
+                    let rc = ledger.execute_manifest(m, vec![NonFungibleGlobalId::from_public_key(&self.accts[a].0)]);
+                    outcome(&rc).into()
+                }
+                _ => return Answer::ok("bad-op"),
+            },
+            _ => return Answer::ok("bad-op"),
+        };
+        self.check(ans)
     }
 }
